@@ -3,7 +3,8 @@
 
 Specification: spec/RespParser.tla (Enc, the reference decoder DecodeAll, the chunked parser state machine).
  1. TLC model checks (a failure here is a machinery bug = exit 2):
-      MC_Resp.cfg       the state machine under EVERY Read schedule agrees with DecodeAll on every stream of the
+      MC_Resp.cfg / MC_RespDeep.cfg (quick / thorough)
+                        the state machine under EVERY Read schedule agrees with DecodeAll on every stream of the
                         instance (ChunkingIndependence, OutIsPrefix, NothingAfterStop)
       MC_RespExact.cfg  DecodeAll(Enc(a1)..Enc(ak)) = <<a1..ak>> over an alphabet with CR LF NUL $ * and ""
  2. B1 (spec -> implementation): TLC prints test vectors [stream, DecodeAll(stream)] (MC_Resp.tla modes wf / all /
@@ -31,6 +32,7 @@ d = common.scratch("c02-")
 ALL_MAXLEN = 5 if QUICK else 7
 NS = {"all": 16, "wf": 4 if QUICK else 16, "mut": 2 if QUICK else 16, "len": 1}
 DEEP = not QUICK
+MC_CFG = "MC_Resp.cfg" if QUICK else "MC_RespDeep.cfg"      # state-machine instance: strings <= 4 / <= 5, 1 / 3 mutated bases
 # read schedules: EVERY split for streams of at most ALLSPLITS bytes, otherwise one read / one byte / two bytes / cuts inside and
 # after every CRLF + RANDSPLITS seeded splits. Thorough: the 2.1 million strings of length 7 get 17 schedules each instead of 64.
 ALLSPLITS = {"all": 10 if QUICK else 6, "wf": 10, "mut": 10, "len": 10}
@@ -155,7 +157,7 @@ def run_slice(job):
 
 jobs = [(m, s) for m in ("all", "wf", "mut", "len") for s in range(NS[m])]
 with concurrent.futures.ThreadPoolExecutor(max_workers=16) as ex:
-    f_mc = ex.submit(model_check, "MC_Resp.cfg", 4)
+    f_mc = ex.submit(model_check, MC_CFG, 4)
     f_ex = ex.submit(model_check, "MC_RespExact.cfg", 1)
     slices = list(ex.map(run_slice, jobs))
     mc = f_mc.result()
@@ -589,9 +591,9 @@ if truncated:
     print("NOTE: %d vector slices were cut short after %d process deaths each (the tree is failing; repair the crashers first)" % (len(truncated), MAX_DEATHS_PER_SLICE), flush=True)
 cov = {"states": mc.distinct, "transitions": mc.generated, "traces_validated_against_impl": tot["vectors"], "samples": samples,
        "exhaustive": True,
-       "explanation": "states/transitions = chunked-parser state machine of spec/RespParser.tla explored by TLC under every Read schedule (MC_Resp.cfg); "
+       "explanation": "states/transitions = chunked-parser state machine of spec/RespParser.tla explored by TLC under every Read schedule (%s); " % MC_CFG +
                       "traces_validated_against_impl = test vectors [stream, DecodeAll(stream)] printed by TLC and replayed on the real resp.ParseStream",
-       "model_checks": {"MC_Resp.cfg": {"distinct": mc.distinct, "generated": mc.generated, "depth": mc.depth, "wall_s": round(mc.wall, 1),
+       "model_checks": {MC_CFG: {"distinct": mc.distinct, "generated": mc.generated, "depth": mc.depth, "wall_s": round(mc.wall, 1),
                                         "checked": ["ChunkingIndependence", "OutIsPrefix", "NothingAfterStop"]},
                         "MC_RespExact.cfg": {"wall_s": round(mcx.wall, 1), "checked": ["Exactness (ASSUME)", "prefix monotonicity (ASSUME)"]}},
        "vectors": tot["vectors"], "vectors_by_class": by_class, "vectors_by_term": by_term, "branches_covered": len(set(by_why) & ALL_LABELS), "branches_total": len(ALL_LABELS), "corrupted_vectors_rejected": ok_guard, "vectors_by_branch": by_why,
